@@ -21,7 +21,10 @@
    (serve call and every Shutdown / start call returned) begins from the initial
    state, because Server.init re-creates srv.shutdown and srv.conns and the
    WaitGroup is local to the serve call (epoch_over, restart, reachable_r,
-   run_lives, accepts_lives at the end of this file).  Not modelled: a start while
+   run_lives, accepts_lives at the end of this file).  Input that never reaches a
+   handler: a UDP datagram shorter than a header creates no worker (SPacketShort);
+   a message serveDNS drops or rejects by itself lets the worker go on without
+   a handler (WDrop).  Not modelled: a start while
    the previous serve call is still draining, MaxTCPQueries, handler-initiated
    Close.  Hijack: a handler that hijacked its TCP connection leaves through
    HExitHj (no Close by the server, deregistration only). *)
@@ -86,10 +89,10 @@ Inductive label :=
 | StInvoke (i : nat) | StAtomic (i : nat) | StReturnErr (i : nat) | StFail (i : nat)
 (* serve loop *)
 | Notify | SFailStart | SCheck | SAcceptOk (c : nat) | SAcceptErr | SFatal | SErrCheck | SSpawn
-| SSetDlL | SPacket (p : nat) | SReadErr | SWaitDone | SReturn (v : retv)
+| SSetDlL | SPacket (p : nat) | SPacketShort (p : nat) | SReadErr | SWaitDone | SReturn (v : retv)
 (* workers *)
 | WCheck (c : nat) | WSetDl (c : nat) | Req (c : nat) | ReadErr (c : nat)
-| HEnter (c : nat) | Reply (c : nat) | HExit (c : nat) | HExitHj (c : nat) | WClose (c : nat) | WFinish (c : nat)
+| HEnter (c : nat) | WDrop (c : nat) | Reply (c : nat) | HExit (c : nat) | HExitHj (c : nat) | WClose (c : nat) | WFinish (c : nat)
 (* Shutdown callers *)
 | SdInvoke (j : nat) | SdAtomic (j : nat) | SdCtx (j : nat) | SdReturn (j : nat) (r : sdres).
 
@@ -258,6 +261,14 @@ Definition step (s : state) (l : label) : option state :=
       else None
     | _, _ => None
     end
+  | SPacketShort p =>
+    (* UDP: ReadFrom returned a datagram shorter than a DNS header (0..11
+       octets): serveUDP hands it to MsgInvalidFunc and continues its loop; no
+       worker is created and the WaitGroup is not touched *)
+    match serve s, md s with
+    | SRead, UDP => if negb (pcdl s) then Some (set_serve s SLoop) else None
+    | _, _ => None
+    end
   | SReadErr => match serve s with SRead => Some (set_serve s SErrChk) | _ => None end
   | SWaitDone =>
     (* wg.Wait(); close(srv.shutdown) *)
@@ -279,6 +290,12 @@ Definition step (s : state) (l : label) : option state :=
   | Req c => wstep s c CRead (fun w => negb (w_dl w)) (set_pc CGot)
   | ReadErr c => wstep s c CRead (fun _ => true) (set_pc CClosing)
   | HEnter c => wstep s c CGot (fun _ => true) (set_pc CHandler)
+  | WDrop c =>
+    (* serveDNS returns without calling the handler: the message has no
+       complete header, MsgAcceptFunc said ignore / reject, or the body did not
+       unpack (a FORMERR / NOTIMP answer of the server itself may be written).
+       The worker goes on as after a handler: next read (TCP) or done (UDP). *)
+    wstep s c CGot (fun _ => true) (set_pc (match md s with TCP => CCheck | UDP => CFin end))
   | Reply c => wstep s c CHandler (fun _ => true) (fun w => w)
   | HExit c => wstep s c CHandler (fun _ => true) (set_pc (match md s with TCP => CCheck | UDP => CFin end))
   | HExitHj c =>
@@ -337,7 +354,7 @@ Definition reachable (m : mode) (s : state) : Prop := exists ls, run (init m) ls
 Definition internal (s : state) (l : label) : bool :=
   match l with
   | Notify | SCheck | SErrCheck | SSpawn | SSetDlL | SWaitDone | SReturn _ => true
-  | WCheck _ | WSetDl _ | HEnter _ | WClose _ | WFinish _ => true
+  | WCheck _ | WSetDl _ | HEnter _ | WDrop _ | WClose _ | WFinish _ => true
   | SAcceptErr => lclosed s
   | SReadErr => pcdl s
   | ReadErr c => match find_w c (workers s) with Some w => w_dl w | None => false end
